@@ -243,6 +243,16 @@ class C03(Check):
             for _ in range(rng.randint(1, 2)):
                 case["prev"].append(self._instance(rng, flexible=rng.random() < 0.15))
             self.note("with_earlier_solves")
+            if case["spec"] and rng.random() < 0.5:
+                # ... one of them a SIBLING of this instance: same name, same numbers of jobs, operations and
+                # machines, other routing and durations (what-if variants of one shop solved by one solver object)
+                nm = common.num_machines_of(case["spec"])
+                sib = [[[sorted({(m + 1) % nm for m in ms}), rng.randint(1, 9)] for ms, _ in job]
+                       for job in case["spec"]]
+                if common.num_machines_of(sib) == nm:
+                    case["prev"][-1] = sib
+                    case["prev_same_name"] = 1
+                    self.note("earlier_solve_of_a_sibling_instance_with_the_same_name_and_shape")
             if case["limit_us"] != 0 and rng.random() < 0.3:
                 case["prev_limit_us"] = rng.choice([0, 0, 5_000_000, -1])
                 self.note("earlier_solves_under_another_time_limit")
@@ -301,7 +311,7 @@ class C03(Check):
         earlier = []
         for ps in case["prev"]:
             try:
-                es = solver.solve(common.build_instance(ps, name="earlier"))
+                es = solver.solve(common.build_instance(ps, name="verif" if case.get("prev_same_name") else "earlier"))
                 earlier.append([es, es.metadata.get("makespan"), es.metadata.get("status"), int(es.makespan())])
             except Exception:  # pylint: disable=broad-except
                 pass
